@@ -414,7 +414,11 @@ func (c *Conv) applyConv1D(x, kernel tensor.Tensor) (tensor.Tensor, error) {
 				return nil, err
 			}
 
-			subKernel := subKernelView.Materialize()
+			// Slicing drops the dimensions of size 1, so the shape (channels x kernel shape) is restored.
+			subKernel, err := reshapeCopy(subKernelView.Materialize(), kernel.Shape()[1:])
+			if err != nil {
+				return nil, err
+			}
 
 			for h := 0; h < paddedX.Shape()[2]; h += strideSize {
 				dimHOutputIdx := h / strideSize
@@ -480,7 +484,11 @@ func (c *Conv) applyConv2D(x, kernel tensor.Tensor) (tensor.Tensor, error) {
 				return nil, err
 			}
 
-			subKernel := subKernelView.Materialize()
+			// Slicing drops the dimensions of size 1, so the shape (channels x kernel shape) is restored.
+			subKernel, err := reshapeCopy(subKernelView.Materialize(), kernel.Shape()[1:])
+			if err != nil {
+				return nil, err
+			}
 
 			// Loop over all 2D subImages of the input image and compute the convolution
 			// for that subImage. Store the result at the right place in the output tensor.
@@ -614,7 +622,22 @@ func (c *Conv) getSubImage(x tensor.Tensor, batchIdx int, startSpatialCoords ...
 		return nil, err
 	}
 
-	return subImage.Materialize(), nil
+	// Slicing drops the dimensions of size 1, so the shape (channels x kernel shape) is restored.
+	return reshapeCopy(subImage.Materialize(), append([]int{x.Shape()[1]}, c.kernelShape...))
+}
+
+// reshapeCopy returns a copy of the given tensor with the given shape.
+func reshapeCopy(t tensor.Tensor, shape []int) (tensor.Tensor, error) {
+	reshaped, ok := t.Clone().(tensor.Tensor)
+	if !ok {
+		return nil, ops.ErrTypeAssert("tensor.Tensor", t.Clone())
+	}
+
+	if err := reshaped.Reshape(shape...); err != nil {
+		return nil, err
+	}
+
+	return reshaped, nil
 }
 
 // addBias adds a bias to the output of the convolution. It reshapes the
